@@ -1,4 +1,5 @@
 import Tfv.Proofs.GraphSubtype
+import Tfv.Proofs.GraphNorm
 /-!
 # The annotations of an operator leaf and of a source leaf
 -/
@@ -62,12 +63,13 @@ theorem addExpr_op_node (G : GLang) (c : GCfg) (root : Node) (origin : Option No
     exact ⟨mono _ (mem_opTriples.2 (.inr ⟨hO, .inl rfl⟩)),
       fun hM => mono _ (mem_opTriples.2 (.inr ⟨hO, .inr ⟨hM, rfl⟩⟩))⟩
 
-/-- the operator leaf with a canonical output type, default node table: its `subtypeOf` objects -/
+/-- the operator leaf whose output type, read through the graph's store (`normT G.store (outputType 1000 ty)`), is
+canonical; default node table: its `subtypeOf` objects -/
 theorem addExpr_op_subtypeOf (G : GLang) (c : GCfg) (hcT : c.withCanonicalTypes = false)
     (hS : c.withSupertypes = true) (hTy : c.withTypes = true) (root : Node) (origin : Option Node) (g : GState)
     (l : List (Term × Node)) (hg : g.typeNodes = (initGraph G c).typeNodes ++ l) (name : String) (ty : Term)
-    (t : Ty) (hout : outputType 1000 ty = t.toTerm) (hC : memTy t G.canon = true) (cur : Nat) (inter : Bool)
-    (hE : (c.withIntermediateTypes || !inter) = true) (g' : GState) (n : Nat)
+    (t : Ty) (hout : normT G.store (outputType 1000 ty) = t.toTerm) (hC : memTy t G.canon = true) (cur : Nat)
+    (inter : Bool) (hE : (c.withIntermediateTypes || !inter) = true) (g' : GState) (n : Nat)
     (h : addExpr G c root origin g (.op name ty) (some cur) inter = .ok (g', n)) (o : Node) :
     (Node.b cur, Node.tf "subtypeOf", o) ∈ g'.triples ↔
       ((Node.b cur, Node.tf "subtypeOf", o) ∈ g.triples ∨
@@ -76,7 +78,7 @@ theorem addExpr_op_subtypeOf (G : GLang) (c : GCfg) (hcT : c.withCanonicalTypes 
   rw [addExpr_op] at h
   unfold opBody at h
   simp only [] at h
-  have hcond : (c.withTypes && (c.withNoncanonicalTypes || inCanon G (outputType 1000 ty)) &&
+  have hcond : (c.withTypes && (c.withNoncanonicalTypes || inCanon G (normT G.store (outputType 1000 ty))) &&
       (c.withIntermediateTypes || !inter)) = true := by
     rw [hout, inCanon_toTerm, hTy, hC, hE]; simp
   rw [if_pos hcond] at h
@@ -112,6 +114,20 @@ theorem addExpr_op_subtypeOf (G : GLang) (c : GCfg) (hcT : c.withCanonicalTypes 
     show (Node.b cur, Node.tf "subtypeOf", o) ∈ (addOrigin c origin g2 cur).triples ↔ _
     rw [e1, key, e2]
 
+/-- the same when the STORED output type is already the canonical `t` (no variable in it: the store is irrelevant) -/
+theorem addExpr_op_subtypeOf_stored (G : GLang) (c : GCfg) (hcT : c.withCanonicalTypes = false)
+    (hS : c.withSupertypes = true) (hTy : c.withTypes = true) (root : Node) (origin : Option Node) (g : GState)
+    (l : List (Term × Node)) (hg : g.typeNodes = (initGraph G c).typeNodes ++ l) (name : String) (ty : Term)
+    (t : Ty) (hout : outputType 1000 ty = t.toTerm) (hC : memTy t G.canon = true) (cur : Nat) (inter : Bool)
+    (hE : (c.withIntermediateTypes || !inter) = true) (g' : GState) (n : Nat)
+    (h : addExpr G c root origin g (.op name ty) (some cur) inter = .ok (g', n)) (o : Node) :
+    (Node.b cur, Node.tf "subtypeOf", o) ∈ g'.triples ↔
+      ((Node.b cur, Node.tf "subtypeOf", o) ∈ g.triples ∨
+        ∃ s, (s = t ∨ s ∈ langSucc G.types G.cfg G.canon (G.canon.length + 2) true t true) ∧
+          typeUri G s.toTerm = .ok o) :=
+  addExpr_op_subtypeOf G c hcT hS hTy root origin g l hg name ty t
+    (by rw [hout]; exact GraphN.normT_toTerm G.store t) hC cur inter hE g' n h o
+
 theorem not_origin_subtypeOf {c : GCfg} {origin : Option Node} {g : GState} {k cur : Nat} {o : Node} :
     (Node.b cur, Node.tf "subtypeOf", o) ∈ (addOrigin c origin g k).triples ↔
       (Node.b cur, Node.tf "subtypeOf", o) ∈ g.triples := by
@@ -123,7 +139,8 @@ theorem not_origin_subtypeOf {c : GCfg} {origin : Option Node} {g : GState} {k c
       exact absurd he.2.1 (by decide)
   · exact .inl
 
-/-- a new source leaf with a canonical type, default node table: its `subtypeOf` objects -/
+/-- a new source leaf whose STORED type is the canonical `t` (then `normT G.store t.toTerm = t.toTerm`, and the
+caller-decided `canonical` flag is `true`); default node table: its `subtypeOf` objects -/
 theorem addExpr_src_subtypeOf (G : GLang) (c : GCfg) (hcT : c.withCanonicalTypes = false)
     (hS : c.withSupertypes = true) (hTy : c.withTypes = true) (root : Node) (origin : Option Node) (g : GState)
     (l : List (Term × Node)) (hg : g.typeNodes = (initGraph G c).typeNodes ++ l) (id : Nat) (lbl : Option String)
@@ -147,9 +164,66 @@ theorem addExpr_src_subtypeOf (G : GLang) (c : GCfg) (hcT : c.withCanonicalTypes
   · rename_i g2 hr
     simp only [Except.ok.injEq, Prod.mk.injEq] at h
     obtain ⟨rfl, _⟩ := h
-    have key := annotateType_subtypeOf_exact G c hcT hS _ l (by exact hg) root cur t hC false g2 hr o
+    rw [GraphN.normT_toTerm] at hr
+    have hr' : annotateType G c { g with srcNodes := g.srcNodes ++ [(id, cur)] } root cur t.toTerm false = .ok g2 := hr
+    have key := annotateType_subtypeOf_exact G c hcT hS _ l (by exact hg) root cur t hC false g2 hr' o
     show (Node.b cur, Node.tf "subtypeOf", o) ∈ (addOrigin c origin g2 cur).triples ↔ _
     rw [not_origin_subtypeOf, key]
-    rfl
+
+/-! ## a source whose stored type is not canonical -/
+
+/-- `annotateType` told by its caller that the type is not canonical: no `subtypeOf` triple is added -/
+theorem annotateType_false_subtypeOf (G : GLang) (c : GCfg) (g : GState) (root : Node) (cur : Nat) (ty : Term)
+    (mf : Bool) (g' : GState) (h : annotateType G c g root cur ty mf (some false) = .ok g') (s o : Node)
+    (ht : (s, Node.tf "subtypeOf", o) ∈ g'.triples) : (s, Node.tf "subtypeOf", o) ∈ g.triples := by
+  unfold annotateType at h
+  split at h
+  · cases h
+  · rename_i g1 tn h1
+    simp only [Option.getD_some, Bool.and_false, Bool.false_eq_true, if_false] at h
+    have hg' : g' = (if c.withMembership = true then
+        (g1.add (.b cur, .tf "type", tn)).add (root, .tf "containsType", tn)
+        else g1.add (.b cur, .tf "type", tn)) := by
+      split at h <;> simp only [Except.ok.injEq] at h <;> exact h.symm
+    rw [hg', mem_iteAdd, mem_add] at ht
+    rcases ht with (ht | ht) | ⟨_, ht⟩
+    · rcases (addType_step G c _ _ _ _ _ h1).new_triples _ ht with ht | hp
+      · exact ht
+      · exact absurd rfl (hp "subtypeOf")
+    · simp only [Prod.mk.injEq, Node.tf.injEq] at ht
+      exact absurd ht.2.1 (by decide)
+    · simp only [Prod.mk.injEq, Node.tf.injEq] at ht
+      exact absurd ht.2.1 (by decide)
+
+/-- **stale source type**: a new source leaf whose STORED type is not canonical (for instance because it still shows
+a variable that has been bound since) gets no `subtypeOf` triple, whatever `normT G.store ty` is -/
+theorem addExpr_src_stale (G : GLang) (c : GCfg) (root : Node) (origin : Option Node) (g : GState) (id : Nat)
+    (lbl : Option String) (ty : Term) (hC : inCanon G ty = false)
+    (hnew : g.srcNodes.find? (fun p => p.1 == id) = none) (cur : Option Nat) (inter : Bool) (g' : GState) (n : Nat)
+    (h : addExpr G c root origin g (.src id lbl ty) cur inter = .ok (g', n)) (s o : Node)
+    (ht : (s, Node.tf "subtypeOf", o) ∈ g'.triples) : (s, Node.tf "subtypeOf", o) ∈ g.triples := by
+  rw [addExpr_src, hnew] at h
+  simp only [] at h
+  unfold srcBody at h
+  simp only [hC] at h
+  split at h
+  · cases h
+  · rename_i g2 hr
+    simp only [Except.ok.injEq, Prod.mk.injEq] at h
+    obtain ⟨rfl, _⟩ := h
+    have h2 : (s, Node.tf "subtypeOf", o) ∈ g2.triples := by
+      rw [mem_addOrigin] at ht
+      rcases ht with ht | ⟨_, _, _, he⟩
+      · exact ht
+      · simp only [Prod.mk.injEq, Node.tf.injEq] at he
+        exact absurd he.2.1 (by decide)
+    have h3 : (s, Node.tf "subtypeOf", o) ∈ (curOrFresh g cur).1.triples := by
+      split at hr
+      · exact annotateType_false_subtypeOf G c _ root _ _ false g2 hr s o h2
+      · simp only [Except.ok.injEq] at hr
+        rw [← hr] at h2; exact h2
+    cases cur with
+    | none => exact h3
+    | some k => exact h3
 
 end Tfv
